@@ -4,9 +4,9 @@ from engine import desc as D
 
 EXPLANATION = ("Static rules over quinn-proto MIR: (a) IncomingToken{validated: true} is constructed only in from_header, each site dominated by a successful "
                "Token::decode and by the address / lifetime tests (and, for NEW_TOKEN tokens, by the token log accepting the nonce); the log is consulted with the "
-               "token's own nonce and *issue* time; Token::decode yields a token only past AeadKey::open's Ok edge, a known type byte and an exhausted reader; "
+               "token's own nonce and *issue* time; Token::decode yields a token only past AeadKey::open's Ok edge, a known type byte and an exhausted reader; the nonce reported is parsed from the bytes the AEAD key is derived from, and the built-in aead_from_hkdf returns a key with a data path from those bytes (the nonce is authenticated); "
                "(b) outcome classes: Retry-token failures -> InvalidRetryTokenError -> INVALID_TOKEN close; validation-token failures -> unvalidated; (c) token "
-               "timestamps come only from the configured TimeSource; (d) client Retry acceptance: every state change of the Retry arm lies behind a guard on total_authed_packets itself (this Retry is the first authenticated packet) and behind the pass edge of is_valid_retry checked against the first Initial's DCID; the CID-echo check in "
+               "timestamps come only from the configured TimeSource; (d) client Retry acceptance: every state change of the Retry arm, including the count of the accepted Retry itself, lies behind a guard on total_authed_packets itself (no packet accepted yet; handle_packet never counts an unprotected packet) and behind the pass edge of is_valid_retry checked against the first Initial's DCID; the CID-echo check in "
                "handle_peer_params comparing all three CIDs unconditionally before set_peer_params; the server fills original_dst_cid / retry_src_cid from the token; "
                "(e) client token stores hand out by removing (pop_front); (f) the token log always ends in the filter's check_and_insert; NEW_TOKEN frames carry a "
                "fresh Token::new per transmission; the log's period index is the full-resolution quotient as_nanos(issued + lifetime - period_1_start) / as_nanos(lifetime) and period_1_start only moves by that same lifetime. Cryptographic unforgeability and the rest of the bloom period arithmetic (arm selection, filter turn-over) are NOT decided.")
@@ -168,6 +168,118 @@ def rule_a(ctx):
         ctx.check(okk, 'a', 'aead_failure_yields_no_token', td, o.where(), 'failed open -> None', 'a token whose AEAD open failed is still decoded')
 
 
+def _operand_local(op):
+    return op[1][0] if isinstance(op, list) and op and op[0] in ('c', 'm') else None
+
+
+def _rvalue_reads(rv):
+    """(base locals read by an rvalue, base local of the place borrowed / None, True when that place is a reborrow `*l`)"""
+    k = rv[0]
+    if k in ('ref', 'ptr'):
+        pl = rv[2]
+        return {pl[0]}, pl[0], bool(pl[1]) and pl[1][0] == '*'
+    if k == 'discr':
+        return {rv[1][0]}, None, False
+    out = set()
+
+    def scan(x):
+        if isinstance(x, list):
+            l = _operand_local(x)
+            if l is not None and len(x) == 2 and isinstance(x[1], list) and len(x[1]) == 2 and isinstance(x[1][1], list):
+                out.add(l)
+                return
+            for y in x:
+                scan(y)
+    scan(rv[1:])
+    return out, None, False
+
+
+def _flows_to_return(body, src_local):
+    """P7 FLOW(parameter -> returned value), may-analysis on the raw MIR of one body (flow-insensitive, so it can only
+    over-approximate the flow: a verdict `False` means NO data path exists).  A value is derived from the source when it
+    is computed from a derived value (any rvalue / call argument), or written by a callee that was handed a derived
+    argument together with a `&mut` borrow of it (`okm.fill(&mut key_buffer)`).  Control dependence is NOT data flow
+    (a parameter that is only looked at by an assertion derives nothing)."""
+    taint = {src_local}
+    pts = {}
+    changed = True
+    while changed:
+        changed = False
+
+        def add(l):
+            nonlocal changed
+            if l not in taint:
+                taint.add(l)
+                changed = True
+
+        def point(t, ls):
+            nonlocal changed
+            cur = pts.setdefault(t, set())
+            if not ls <= cur:
+                cur |= ls
+                changed = True
+        for i, j, st in body.stmts():
+            if st[0] != '=':
+                continue
+            dst, rv = st[1], st[2]
+            reads, borrowed, reborrow = _rvalue_reads(rv)
+            if borrowed is not None:
+                point(dst[0], pts.get(borrowed, set()) if reborrow else {borrowed})
+            elif rv[0] in ('use', 'cast'):
+                src = _operand_local(rv[1] if rv[0] == 'use' else rv[2])
+                if src is not None and src in pts:
+                    point(dst[0], pts[src])
+            if reads & taint:
+                add(dst[0])
+                if dst[1] and dst[1][0] == '*':
+                    for l in pts.get(dst[0], ()):
+                        add(l)
+        for c in body.calls():
+            ls = [l for l in (_operand_local(a) for a in c.args) if l is not None]
+            if any(l in taint for l in ls):
+                if c.dst:
+                    add(c.dst[0])
+                for l in ls:
+                    if str(body.local_ty(l)).startswith('&mut'):
+                        for x in pts.get(l, ()):
+                            add(x)
+    return 0 in taint
+
+
+def rule_a_nonce_binding(ctx):
+    """"Any altered token is treated as absent" includes the 16 trailing nonce bytes: they select the reuse-log entry
+    (TokenLog::check_and_insert(nonce, ..)), so an attacker who may change them replays one NEW_TOKEN token without
+    bound.  Nothing but the AEAD covers them, and it does so only through the key: (i) Token::decode derives the key from
+    the very bytes the nonce is parsed from (or hands them to open() as associated data), Token::encode from the nonce it
+    appends; (ii) every HandshakeTokenKey::aead_from_hkdf implemented in the workspace returns a key that is DERIVED from
+    its `random_bytes` argument (a data path parameter -> returned key exists)."""
+    F = ctx.facts
+    td = ctx.pfn('Token::decode')
+    te = ctx.pfn('Token::encode')
+    kd = td.calls_to('HandshakeTokenKey::aead_from_hkdf')
+    ke = te.calls_to('HandshakeTokenKey::aead_from_hkdf')
+    ctx.floor('a', 'token_key_derivation_sites', len(kd) + len(ke), 2)
+    tcons = [c for c in constructions(F, 'token::Token', 'Token', crate='quinn_proto') if F.root_of(c.body).id == td.id]
+    for c in tcons:
+        nonce = describer(F, c.body).operand(c.field_op('nonce'), c.bb, c.idx)
+        srcs = [arg_desc(F, k, 1) for k in kd] + [arg_desc(F, o, 2) for o in td.calls_to('AeadKey::open')]
+        # the nonce reported is parsed from exactly the byte string that keyed (or was authenticated by) the AEAD
+        ok = bool(kd) and any(x[0] not in ('const', 'agg') and any(n == x for n in walk(nonce)) for x in srcs)
+        ctx.check(ok, 'a', 'decoded_nonce_is_the_authenticated_one', td, c.where(), 'Token.nonce is parsed from the bytes handed to aead_from_hkdf',
+                  'Token::decode reports a nonce that is not parsed from the bytes the AEAD key was derived from (nor authenticated as associated data): the reuse log would be keyed by unauthenticated bytes: ' + D.render(nonce)[:160])
+    for k in ke:
+        a = arg_desc(F, k, 1)
+        ok = any(x[0] == 'field' and x[2] == 'nonce' and x[1][0] == 'param' and x[1][1] == 1 for x in walk(a))
+        ctx.check(ok, 'a', 'encoded_key_from_own_nonce', te, k.where(), D.render(a)[:80], 'Token::encode derives the AEAD key from something other than the nonce of the token it seals: ' + D.render(a)[:120])
+    impls = [b for b in F.fns('aead_from_hkdf') if b.kind == 'fn' and b.crate == 'quinn_proto' and 'HandshakeTokenKey' in b.id]
+    ctx.floor('a', 'token_key_implementations', len(impls), 1)
+    for b in impls:
+        ok = b.argc == 2 and _flows_to_return(b, 2)
+        ctx.check(ok, 'a', 'token_key_derived_from_nonce', b, b.where(), 'a data path random_bytes -> returned AeadKey exists',
+                  'the AEAD key returned by this HandshakeTokenKey::aead_from_hkdf does not depend on its `random_bytes` argument (the token nonce): every token is sealed under one key, '
+                  'the trailing nonce bytes are not authenticated, and an altered nonce yields a "fresh" token for the reuse log')
+
+
 def rule_b(ctx):
     F = ctx.facts
     fh = ctx.pfn('IncomingToken::from_header')
@@ -218,9 +330,10 @@ def _self_field(x, name):
 
 def _other_packet_seen(o, a, b):
     """the relation says that a packet other than the one being processed was authenticated before: the counter
-    self.total_authed_packets (which already counts this packet) exceeds 1 — `1 < n`, `2 <= n`, or `n != 1`"""
+    self.total_authed_packets (which does NOT yet count this Retry: an unprotected packet is counted only once its
+    integrity tag verified, behind this very gate) exceeds 0 — `0 < n`, `1 <= n`, or `n != 0`"""
     n = lambda x: _self_field(x, 'total_authed_packets')
-    return (o == 'Lt' and _is_int(a, 1) and n(b)) or (o == 'Le' and _is_int(a, 2) and n(b)) or (o == 'Ne' and ((_is_int(a, 1) and n(b)) or (_is_int(b, 1) and n(a))))
+    return (o == 'Lt' and _is_int(a, 0) and n(b)) or (o == 'Le' and _is_int(a, 1) and n(b)) or (o == 'Ne' and ((_is_int(a, 0) and n(b)) or (_is_int(b, 0) and n(a))))
 
 
 def rule_d_retry(ctx):
@@ -240,9 +353,23 @@ def rule_d_retry(ctx):
     # the Retry arm's other effects: the calls that only the arm makes, recognised by being dominated by the tag check
     for pat in ('CidQueue::update_initial_cid', 'Session::initial_keys', 'StreamsState::retransmit_all_for_0rtt', 'Connection::discard_space'):
         prot += [c.bb for c in pdp.calls_to(pat) if any(pdp.dominates(v.bb, c.bb) for v in valid)]
+    # counting the Retry (total_authed_packets, idle timer) is an effect of following it: EVERY counting site of the function,
+    # wherever it stands, must lie behind the gate and the tag check — a Retry counted before it was validated closes the
+    # gate for the genuine one
+    cnt = pdp.calls_to('Connection::on_packet_authenticated')
+    ctx.floor('d', 'accepted_retry_count_sites', len(cnt), 1)
+    prot += [c.bb for c in cnt]
     prot = sorted(set(prot))
-    ctx.floor('d', 'retry_effect_sites', len(prot), 3)
-    guard_protects(ctx, 'd', 'retry_only_before_other_server_packets', pdp, _other_packet_seen, prot, what='self.total_authed_packets > 1 (this Retry is not the first authenticated packet)')
+    ctx.floor('d', 'retry_effect_sites', len(prot), 4)
+    guard_protects(ctx, 'd', 'retry_only_before_other_server_packets', pdp, _other_packet_seen, prot, what='self.total_authed_packets > 0 (a packet of the server was accepted before this Retry)')
+    # the gate constant agrees with the counting site.  `> 0` means "another server packet was processed" only if the Retry at
+    # hand has not been counted when the gate is read: handle_packet counts protected packets only
+    # (c/every_processed_packet_is_counted_unprotected_not_counted_before_validation) and the counting sites of this function
+    # lie behind the gate (above).  And it means "restarts the handshake once" only if the accepted Retry is counted at all:
+    for w in st:
+        okc = any(pdp.dominates(c.bb, w.bb) for c in cnt) or (bool(cnt) and path_avoiding(pdp, pdp.succ[w.bb], pdp.return_blocks(), {c.bb for c in cnt}) is None)
+        ctx.check(okc, 'd', 'accepted_retry_counts_itself', pdp, w.where(), 'on_packet_authenticated on every path that follows the Retry',
+                  'a Retry can be followed without being counted in total_authed_packets: a second Retry then passes the `total_authed_packets > 0` gate and restarts the handshake again')
     for c in valid:
         ok, found = True, False
         for br in branches(F, pdp):
@@ -259,14 +386,14 @@ def rule_d_retry(ctx):
         ok = (cid[0] == 'call' and cid[1] == 'CidQueue::active' and len(cid[3]) == 1 and _self_field(cid[3][0], 'rem_cids')) or _self_field(cid, 'initial_dst_cid') or _self_field(cid, 'orig_rem_cid')
         ctx.check(ok, 'd', 'retry_tag_bound_to_original_dcid', pdp, c.where(), D.render(cid)[:80],
                   'the Retry integrity tag is not verified against the destination CID the client chose for its first Initial (self.rem_cids.active() / initial_dst_cid / orig_rem_cid): ' + D.render(cid)[:120])
-    # the counter means "packets authenticated so far, this one included": +1 on every path through on_packet_authenticated,
-    # written nowhere else (handle_packet -> on_packet_authenticated before process_decrypted_packet is c/every_processed_packet_is_counted)
+    # the counter means "packets accepted so far": +1 on every path through on_packet_authenticated, written nowhere else
+    # (handle_packet -> on_packet_authenticated before process_decrypted_packet for every protected packet is c/every_processed_packet_is_counted)
     opa = ctx.pfn('Connection::on_packet_authenticated')
     inc = [(w, v) for w, v in store_values(ctx, 'Connection', 'total_authed_packets', in_fn=opa)]
     ok = bool(inc) and all(v[0] == 'bin' and v[1] == 'Add' and ((_is_int(v[3], 1) and _self_field(v[2], 'total_authed_packets')) or (_is_int(v[2], 1) and _self_field(v[3], 'total_authed_packets'))) for w, v in inc)
     ok = ok and all(path_avoiding(opa, [0], opa.return_blocks(), {w.bb}) is None for w, v in inc)
     ctx.check(ok, 'd', 'retry_gate_counter_counts_every_packet', opa, opa.where(), 'total_authed_packets += 1 on every path through on_packet_authenticated',
-              'on_packet_authenticated no longer counts every authenticated packet by exactly one: the `total_authed_packets > 1` Retry gate then opens late (or never closes)')
+              'on_packet_authenticated no longer counts every authenticated packet by exactly one: the `total_authed_packets > 0` Retry gate then never closes (or closes late)')
     who_may_write(ctx, 'd', 'retry_gate_counter_writers', 'Connection', 'total_authed_packets', ['Connection::on_packet_authenticated', 'Connection::new'], floor=1)
 
 
@@ -487,6 +614,7 @@ def run(ctx):
     from rules.shared_rules import every_processed_packet_is_counted
     every_processed_packet_is_counted(ctx, 'c', 'every_processed_packet_is_counted')
     rule_a(ctx)
+    rule_a_nonce_binding(ctx)
     rule_b(ctx)
     rule_c(ctx)
     rule_d(ctx)
